@@ -93,3 +93,44 @@ def metadata_fields(f0: int, f1: int, f2: int, i0: int, i1: int, i2: int, s0: st
             else:
                 ok = ok and got == default
     return done(ok)
+
+
+# ---------------------------------------------------------------------------------------------
+# C10 on real lines: the shipped recognisers and decoders on texts assembled by the solver from a
+# small token alphabet (quotes, blanks, '=', another field's marker, non-ASCII)
+# ---------------------------------------------------------------------------------------------
+TOKS = ['"', "a", " ", "=", "Offset = 7", "é", "Resolution = 9"]
+STRF = H.part("VF_STRF", 8)      # which string field carries the value (index into FIELDS)
+
+
+def _value(k0, k1, k2, n):
+    v = ""
+    for k in [k0, k1, k2][:n]:
+        v = v + H.pick(TOKS, k)
+    return v
+
+
+NMAX = H.part("VF_NMAX", 2)
+K0 = H.part("VF_K0", -1)
+
+
+def metadata_real_lines(n: int, k0: int, k1: int, k2: int, first: bool, pad: bool, third: bool) -> bool:
+    """
+    pre: 1 <= n <= NMAX and all(0 <= k < len(TOKS) for k in [k0, k1, k2])
+    pre: K0 < 0 or k0 == K0
+    post: _
+    """
+    pascal, snake, kind, default = FIELDS[STRF]
+    v = _value(k0, k1, k2, n)
+    own = ("  " if pad else "") + pascal + ' = "' + v + '"' + ("  " if pad else "")
+    res = "  Resolution = 192"
+    off = "  Offset = 5"
+    lines = [own, res, off] if first else [res, off, own]
+    if third:
+        lines.insert(1, '  Year = ", 2018"')
+    md = Metadata.from_chart_lines(lines)
+    a = getattr(md, snake) == v
+    b = md.resolution == 192 and md.offset == 5
+    c = snake == "year" or md.year == (", 2018" if third else None)
+    d = md.player2 is Player2Instrument.BASS and md.difficulty == 0
+    return done(a and b and c and d)
